@@ -1,11 +1,13 @@
 #!/bin/bash
-# usage: tools/try_seed.sh <seed dir with patch.diff [demo.py]> <PROP> [extra env]
-# applies the patch to /repo, runs the demo and the quick check, then restores /repo
-d=$1; prop=$2
-cd /repo || exit 9
-if [ -n "$(git status --porcelain --untracked-files=no)" ]; then echo "REPO DIRTY"; exit 9; fi
-if ! git apply --check "$d/patch.diff" 2>/dev/null; then echo "PATCH DOES NOT APPLY: $d"; exit 8; fi
-git apply "$d/patch.diff"
-if [ -f "$d/demo.py" ]; then (cd /repo && timeout 300 /venv/bin/python "$d/demo.py" >/dev/null 2>&1; echo "demo exit with change: $?"); fi
-cd /verif && timeout 900 /venv/bin/python run_check.py $prop --tier quick 2>&1 | grep -E "VIOLATION|violation run|detail|exit|HARNESS" | cut -c1-400
-cd /repo && git checkout -- . && git status --porcelain --untracked-files=no
+# usage: tools/try_seed.sh <seed dir with patch.diff [demo.py]> <PROP>
+# Applies the patch in a scratch worktree of /repo HEAD (never in /repo itself, so that checks running
+# elsewhere are not disturbed), runs the demo and the property's quick check against it (VERIF_REPO), removes the worktree.
+d=$(realpath $1); prop=$2
+wt=/tmp/sv/try_$$_$RANDOM
+mkdir -p /tmp/sv
+git -C /repo worktree add -q --detach $wt HEAD || exit 9
+if ! git -C $wt apply --check "$d/patch.diff" 2>/dev/null; then echo "PATCH DOES NOT APPLY: $d"; git -C /repo worktree remove --force $wt; exit 8; fi
+git -C $wt apply "$d/patch.diff"
+if [ -f "$d/demo.py" ]; then (cd $wt && PYTHONPATH=$wt timeout 300 /venv/bin/python "$d/demo.py" >/dev/null 2>&1; echo "demo exit with change: $?"); fi
+cd /verif && VERIF_REPO=$wt VERIF_WORKERS=${VERIF_WORKERS:-16} timeout 1200 /venv/bin/python run_check.py $prop --tier quick 2>&1 | grep -E "VIOLATION|violation run|detail|exit|HARNESS" | cut -c1-400
+git -C /repo worktree remove --force $wt
